@@ -33,6 +33,8 @@ async def postpone():
             raise
     finally:
         wake_up.revoke()
+        # do not keep the frames of this activity alive via a reference cycle
+        wake_up.__traceback__ = None
 
 
 async def suspend(*, delay: Optional[float], until: Optional[float]):
@@ -58,6 +60,8 @@ async def suspend(*, delay: Optional[float], until: Optional[float]):
             raise
     finally:
         wake_up.revoke()
+        # do not keep the frames of this activity alive via a reference cycle
+        wake_up.__traceback__ = None
 
 
 class Notification:
@@ -126,6 +130,8 @@ class Notification:
                 raise
         finally:
             self.__unsubscribe__(task, wake_up)
+            # do not keep the frames of this activity alive via a reference cycle
+            wake_up.__traceback__ = None
 
     if __debug__:
         def __del__(self):
